@@ -151,6 +151,11 @@ def mon_c08_optlist(case, verdict, chk):
     what = "%s as %s of an output, source %s" % (case.get("tag"), case.get("position"), "produced" if case.get("source_produced") else "not produced")
     if case.get("panic") or case.get("timeout"):
         chk.violation("C08:panic", "a workflow with %s panicked or hung: %s" % (what, str(case.get("panic"))[:200]), replay)
+    elif case.get("accepted") and "bug:" in (case.get("err") or "") and case.get("tag") == "literal":
+        # a literal list whose items differ in shape: the whole-engine replay of finding F17 (see mon_c08_infer)
+        chk.violation("C08:inferred-list-item-type-from-first-item",
+                      "Prepare accepted a workflow whose output holds the literal %s; the run failed with an internal consistency error: %s"
+                      % (case.get("position"), case["err"][:300]), replay)
     elif case.get("accepted") and "bug:" in (case.get("err") or ""):
         chk.violation("C08:bug-error:optional-list-item", "Prepare accepted a workflow with %s; the run failed with an internal consistency error: %s"
                       % (what, case["err"][:300]), replay)
@@ -236,6 +241,7 @@ SPEC = {
         T + "struct_output_needs_serialization",
         TI + "inferred_schema_accepts_homogeneous_value_partial", TI + "inferred_object_accepts_fields_partial",
         TI + "list_item_type_is_first_items", TI + "accepted_item_has_same_type_id",
+        TI + "inference_refuses_exactly_the_untypable", TI + "typable_homogeneous_value_is_accepted",
         TI + "inferred_schema_can_reject_its_own_value", TI + "inferred_schema_can_reject_nested_list", TI + "kind_ranges_ordered",
     ],
     "pins": RUNLOOP_PINS + ["workflow_workflow__serializedOutput"] + INFER_PINS,
